@@ -34,7 +34,8 @@
    empty start class instead of expanding that class. *)
 From Coq Require Import ZArith List Bool Lia.
 From CSS Require Import Base.PyList ClassDB.Model ClassDB.Proofs Gen.Prelude Gen.ReverseShifts
-  Searcher.Model Searcher.Inv Searcher.Contracts Searcher.ProofsCore Searcher.Proofs.
+  Searcher.Model Searcher.Inv Searcher.Contracts Searcher.ProofsCore Searcher.Proofs
+  Searcher.OneSidedDefs Searcher.OneSided.
 From CSS Require RuleDB.Model RuleDB.CdbFacts RuleDB.GetProofs RuleDB.AddProofs RuleDB.AddHist RuleDB.SearchHist.
 Import ListNotations.
 Open Scope Z_scope.
@@ -233,9 +234,13 @@ End C04.
      class's label" is part of C04_recorded_from_table);
    - completeness: every rule the table yields for an expanded packet IS recorded;
    - the forest keys (EvKey) and the equivalence-edge events are not characterised;
-   - "a dropped child is truly empty" under sym_contract alone (it is proved under both contracts only:
-     the cached value `empty` can only come from the class itself or from _symmetry_expand, but the
-     invariant carried through the run is the two-sided EmptyOK of C15). *)
+   - "a dropped child is truly empty" under sym_contract alone is NOW PROVED: C04_dropped_only_if_empty below
+     (even under sym_fwd, the forward half of sym_contract: C04_dropped_only_if_empty_fwd; the one-sided
+     invariant EmptyOK1 is carried through the run in Searcher/OneSided*.v), and sym_fwd cannot be dropped
+     or replaced by pe_contract (C04_dropped_only_if_empty_needs_sym_fwd).  The CONVERSE - "a truly empty child
+     of a possibly_empty rule IS dropped" - still needs pe_contract: after a rule that is not possibly_empty
+     issued set_empty(l, False) the cache says `False` for a class that may be truly empty
+     (C04_kept_although_empty_without_pe_contract); it is part of C04_stored_key only. *)
 
 (* ---------------------------------------------------------------------------------------------
    The former statement of the contracts.  pe_contract_old (Searcher/Contracts.v) is the hypothesis
@@ -666,6 +671,191 @@ Proof.
            20%nat false true ex_ans 0 sx_ps sx_packets 3 [4] 2 2). in_trace.
 Qed.
 
+(* ---------------------------------------------------------------------------------------------
+   ONE-SIDED truthfulness of the emptiness cache, under sym_contract ALONE (in fact under its forward half
+   sym_fwd: the image of an EMPTY class under a symmetry is empty) - no pe_contract, no condition on the packets:
+   for EVERY table, mode, fuel, driver, answers, start class, packets.  The cache is written by is_empty (the
+   class's own answer), by add_rule (set_empty(child, False): the value False says nothing here) and by
+   _symmetry_expand (the value is_empty returned for the class being expanded, written on the first child of a
+   rule a symmetry yields on it).  Instances of Searcher.OneSidedProofs.run_search_inv1. *)
+Theorem C04_cache_empty_truthful_one_sided : forall (T : table) mode F do_level expand_verified answers start,
+  sym_fwd T ->
+  forall ps i c,
+  nth_error (classes (cdb (run_search T mode F do_level expand_verified answers start ps))) i = Some c ->
+  nth_error (empties (cdb (run_search T mode F do_level expand_verified answers start ps))) i = Some (Some true) ->
+  oracle T c = true.
+Proof. exact one_sided_cache_truthful. Qed.
+
+Theorem C04_set_empty_true_truthful : forall (T : table) mode F do_level expand_verified answers start,
+  sym_fwd T ->
+  forall ps l,
+  In (EvSetEmpty l true) (trace (run_search T mode F do_level expand_verified answers start ps)) ->
+  exists c, label_of Z.eqb (fun c : Z => c) (cdb (run_search T mode F do_level expand_verified answers start ps)) c = Some l /\
+            oracle T c = true.
+Proof. exact one_sided_set_empty_true. Qed.
+
+(* sym_fwd is decidable on a table: the harness runs the extracted sym_fwdb (run_c04, mode 101) on every retained
+   universe - table universes and tabulated word searches - and compares it with its Python predicate *)
+Theorem C04_sym_fwd_decided : forall (T : table), sym_fwdb T = true <-> sym_fwd T.
+Proof. exact sym_fwdb_spec. Qed.
+
+(* the stored key of C04_stored_key_partial, plus: every child missing from it is a child of a possibly_empty
+   rule AND its class is truly empty *)
+Theorem C04_dropped_only_if_empty_fwd : forall (T : table) mode F do_level expand_verified answers start,
+  sym_fwd T ->
+  forall ps eqv start_label ends' sid parent,
+  In (EvStore eqv start_label ends' sid parent) (trace (run_search T mode F do_level expand_verified answers start ps)) ->
+  let d := cdb (run_search T mode F do_level expand_verified answers start ps) in
+  label_of Z.eqb (fun c : Z => c) d parent = Some start_label /\
+  exists ls bs,
+    Forall2 (fun c l => label_of Z.eqb (fun c : Z => c) d c = Some l) (firstn (length ls) (kids_sp T sid parent)) ls /\
+    (length ls = length (kids_sp T sid parent) \/
+     (length ls = 1%nat /\ kids_sp T sid parent <> [] /\ sym_yielded T sid parent)) /\
+    length bs = length ls /\ ends' = isort (select bs ls) /\
+    Forall2 (fun b c => b = false -> pe_of T sid = true /\ oracle T c = true) bs (firstn (length ls) (kids_sp T sid parent)).
+Proof. exact one_sided_dropped_only_if_empty. Qed.
+
+Theorem C04_dropped_only_if_empty : forall (T : table) mode F do_level expand_verified answers start,
+  sym_contract T ->
+  forall ps eqv start_label ends' sid parent,
+  In (EvStore eqv start_label ends' sid parent) (trace (run_search T mode F do_level expand_verified answers start ps)) ->
+  let d := cdb (run_search T mode F do_level expand_verified answers start ps) in
+  label_of Z.eqb (fun c : Z => c) d parent = Some start_label /\
+  exists ls bs,
+    Forall2 (fun c l => label_of Z.eqb (fun c : Z => c) d c = Some l) (firstn (length ls) (kids_sp T sid parent)) ls /\
+    (length ls = length (kids_sp T sid parent) \/
+     (length ls = 1%nat /\ kids_sp T sid parent <> [] /\ sym_yielded T sid parent)) /\
+    length bs = length ls /\ ends' = isort (select bs ls) /\
+    Forall2 (fun b c => b = false -> pe_of T sid = true /\ oracle T c = true) bs (firstn (length ls) (kids_sp T sid parent)).
+Proof.
+  intros T mode F dl ev ans start Hs.
+  exact (C04_dropped_only_if_empty_fwd T mode F dl ev ans start (sym_contract_fwd T Hs)).
+Qed.
+
+(* NECESSITY of sym_fwd, and pe_contract cannot replace it.  Class 1 is EMPTY, class 2 is not; the symmetry
+   (strategy 1) maps the empty class 1 to the NON-empty class 2, so sym_fwd fails, while pe_contract holds (the
+   symmetry is not handed out by the queue).  The possibly_empty strategy 0 decomposes the start class 0 into
+   (1, 2): the empty child 1 is symmetry-expanded, _symmetry_expand issues set_empty(label of 2, True), and
+   RuleDBBase.add then drops BOTH children of S0(0) - the stored key is (0, ()) - although class 2 is not empty. *)
+Definition nx_table : table :=
+  mkT [0; 1; 0]
+      [ mkS 0 false true true true [(0, mkE [1; 2] false true [0; 1])] [];      (* 0: plain, possibly_empty *)
+        mkS 3 false false false false [(1, mkE [2] true true [0])] [] ]          (* 1: symmetry *)
+      [] [1].
+Notation nx_run := (run_search nx_table 0 20 false true [] 0 [mkP 0 [0] false]).
+Theorem C04_dropped_only_if_empty_needs_sym_fwd :
+  ~ sym_fwd nx_table /\ ~ sym_contract nx_table /\
+  pe_contract nx_table [0] /\ packets_in [0] [mkP 0 [0] false] /\
+  stat nx_run = Running /\
+  rev (trace nx_run) =
+    [EvQAdd 0; EvSetEmpty 2 true; EvAdd 1 [2] 1 1; EvEdge true 1 2; EvStore true 1 [2] 1 1; EvQStop 2;
+     EvQAdd 1; EvQAdd 2; EvAdd 0 [1; 2] 0 0; EvQStop 1; EvQStop 2; EvStore false 0 [] 0 0] /\
+  In (EvSetEmpty 2 true) (trace nx_run) /\ In (EvStore false 0 [] 0 0) (trace nx_run) /\
+  kids_sp nx_table 0 0 = [1; 2] /\ pe_of nx_table 0 = true /\
+  exlbl (cdb nx_run) 1 = Some 1 /\ exlbl (cdb nx_run) 2 = Some 2 /\
+  (* the child 2 (label 2) is missing from the stored key (0, ()), and it is NOT empty *)
+  oracle nx_table 2 = false /\ oracle nx_table 1 = true /\
+  empties (cdb nx_run) = [Some false; Some true; Some true].
+Proof.
+  assert (~ sym_fwd nx_table) as Hn.
+  { intros H. specialize (H 1 1 (mkR 1 1 RPlain) 2 []). vm_compute in H.
+    assert (false = true) as X by (apply H; auto). discriminate X. }
+  split; [exact Hn|]. split; [intros H; apply Hn; apply sym_contract_fwd; exact H|].
+  split; [apply (proj1 (pe_contractb_spec nx_table [0])); vm_compute; reflexivity|].
+  split; [apply (proj1 (packets_inb_spec [0] [mkP 0 [0] false])); reflexivity|].
+  csplit; try (vm_compute; reflexivity); in_trace.
+Qed.
+
+(* ... so the CONCLUSION of C04_dropped_only_if_empty is false for that EvStore event: whatever labels ls and flags bs
+   one picks, some flag is false on the non-empty class 2 (or the key would not be empty) *)
+Theorem C04_dropped_only_if_empty_conclusion_fails_without_sym_fwd :
+  let d := cdb nx_run in
+  In (EvStore false 0 [] 0 0) (trace nx_run) /\
+  ~ (exlbl d 0 = Some 0 /\
+     exists ls bs,
+       Forall2 (fun c l => exlbl d c = Some l) (firstn (length ls) (kids_sp nx_table 0 0)) ls /\
+       (length ls = length (kids_sp nx_table 0 0) \/
+        (length ls = 1%nat /\ kids_sp nx_table 0 0 <> [] /\ sym_yielded nx_table 0 0)) /\
+       length bs = length ls /\ [] = isort (select bs ls) /\
+       Forall2 (fun b c => b = false -> pe_of nx_table 0 = true /\ oracle nx_table c = true) bs (firstn (length ls) (kids_sp nx_table 0 0))).
+Proof.
+  cbv zeta. split; [in_trace|].
+  intros (_ & ls & bs & _ & [L|(_ & _ & Y)] & Lb & E & Fa).
+  - change (kids_sp nx_table 0 0) with [1; 2] in *.
+    destruct ls as [|l1 [|l2 [|]]]; try discriminate L.
+    destruct bs as [|b1 [|b2 [|]]]; try discriminate Lb.
+    simpl in Fa. inversion Fa as [|? ? ? ? _ Fa']; subst. inversion Fa' as [|? ? ? ? H2 _]; subst.
+    destruct b2.
+    + destruct b1; unfold isort in E; simpl in E; try discriminate E.
+      destruct (l1 <=? l2); discriminate E.
+    + destruct (H2 eq_refl) as (_ & X). vm_compute in X. discriminate X.
+  - destruct Y as (sid0 & c0 & r & Y1 & Y2 & Y3 & Y4).
+    change (t_sym nx_table) with [1] in Y1. destruct Y1 as [<-|[]].
+    unfold rules_from_strategy in Y2. set (x := strat_of nx_table 1) in Y2. vm_compute in x. subst x.
+    cbv iota beta in Y2. simpl in Y2.
+    destruct (applies nx_table 1 c0); simpl in Y2; [|contradiction].
+    destruct Y2 as [<-|[]]. simpl in Y3. discriminate Y3.
+Qed.
+
+(* NON-VACUITY: the new theorem applied to the run of ex_table (both contracts hold): the key of
+   S1(0) -> (1, 2), from which the empty child 2 was dropped *)
+Example C04_dropped_only_if_empty_nonvacuous :
+  let d := cdb (ex_run [ex_p1; ex_p2]) in
+  exlbl d 0 = Some 0 /\
+  exists ls bs,
+    Forall2 (fun c l => exlbl d c = Some l) (firstn (length ls) (kids_sp ex_table 1 0)) ls /\
+    (length ls = length (kids_sp ex_table 1 0) \/
+     (length ls = 1%nat /\ kids_sp ex_table 1 0 <> [] /\ sym_yielded ex_table 1 0)) /\
+    length bs = length ls /\ [2] = isort (select bs ls) /\
+    Forall2 (fun b c => b = false -> pe_of ex_table 1 = true /\ oracle ex_table c = true) bs (firstn (length ls) (kids_sp ex_table 1 0)).
+Proof.
+  apply (C04_dropped_only_if_empty ex_table 0 20 false true ex_ans 0 C04_nonvacuous_sym_contract
+           [ex_p1; ex_p2] false 0 [2] 1 0). in_trace.
+Qed.
+(* ... and to the run of dx_table, where pe_contract FAILS (contractsb dx_table [1] = false,
+   C04_documented_contracts_insufficient_refuted) but sym_contract holds: a run C04_stored_key does not cover *)
+Example C04_dx_sym_contract : sym_contract dx_table.
+Proof. intros sid c r c0 rest []. Qed.
+Example C04_dropped_only_if_empty_without_pe_contract :
+  let d := cdb (run_search dx_table 0 20 false true ex_ans 0 [mkP 0 [1] false]) in
+  contractsb dx_table [1] = false /\
+  exlbl d 1 = Some 2 /\
+  exists ls bs,
+    Forall2 (fun c l => exlbl d c = Some l) (firstn (length ls) (kids_sp dx_table 2 1)) ls /\
+    (length ls = length (kids_sp dx_table 2 1) \/
+     (length ls = 1%nat /\ kids_sp dx_table 2 1 <> [] /\ sym_yielded dx_table 2 1)) /\
+    length bs = length ls /\ [1] = isort (select bs ls) /\
+    Forall2 (fun b c => b = false -> pe_of dx_table 2 = true /\ oracle dx_table c = true) bs (firstn (length ls) (kids_sp dx_table 2 1)).
+Proof.
+  cbv zeta. split; [vm_compute; reflexivity|].
+  apply (C04_dropped_only_if_empty dx_table 0 20 false true ex_ans 0 C04_dx_sym_contract
+           [mkP 0 [1] false] false 2 [1] 2 1). in_trace.
+Qed.
+
+(* the CONVERSE needs pe_contract.  No symmetry (sym_contract holds), class 1 is EMPTY; strategy 0 is not
+   possibly_empty and has the empty child 1 on the non-empty class 0 (pe_contract fails): add_rule issues
+   set_empty(1, False), and the possibly_empty rule S1(0) -> (1, 2) KEEPS its truly empty child: key (0, (1, 2)) *)
+Definition kx_table : table :=
+  mkT [0; 1; 0]
+      [ mkS 0 false true false true [(0, mkE [1] false true [0])] [];            (* 0: plain, NOT possibly_empty *)
+        mkS 0 false true true true [(0, mkE [1; 2] false true [0; 1])] [] ]      (* 1: plain, possibly_empty *)
+      [] [].
+Notation kx_run := (run_search kx_table 0 20 false true [] 0 [mkP 0 [0; 1] false]).
+Example C04_kept_although_empty_without_pe_contract :
+  sym_contract kx_table /\ ~ pe_contract kx_table [0; 1] /\ packets_in [0; 1] [mkP 0 [0; 1] false] /\
+  stat kx_run = Running /\
+  In (EvSetEmpty 1 false) (trace kx_run) /\ In (EvStore false 0 [1; 2] 1 0) (trace kx_run) /\
+  kids_sp kx_table 1 0 = [1; 2] /\ pe_of kx_table 1 = true /\
+  exlbl (cdb kx_run) 1 = Some 1 /\ oracle kx_table 1 = true /\
+  empties (cdb kx_run) = [Some false; Some false; Some false].
+Proof.
+  split; [intros sid c r c0 rest []|].
+  split.
+  { intros H. apply (proj2 (pe_contractb_spec kx_table [0; 1])) in H. vm_compute in H. discriminate H. }
+  split; [apply (proj1 (packets_inb_spec [0; 1] [mkP 0 [0; 1] false])); reflexivity|].
+  csplit; try (vm_compute; reflexivity); in_trace.
+Qed.
+
 Print Assumptions C04_labels.
 Print Assumptions C04_labels_stable.
 Print Assumptions C04_recorded_from_table.
@@ -680,3 +870,13 @@ Print Assumptions C04_contracts_decided.
 Print Assumptions C04_documented_contracts_insufficient_refuted.
 Print Assumptions C04_search_gives_add_hist.
 Print Assumptions C04_adds_made_under_add_pre.
+Print Assumptions C04_cache_empty_truthful_one_sided.
+Print Assumptions C04_set_empty_true_truthful.
+Print Assumptions C04_sym_fwd_decided.
+Print Assumptions C04_dropped_only_if_empty_fwd.
+Print Assumptions C04_dropped_only_if_empty.
+Print Assumptions C04_dropped_only_if_empty_needs_sym_fwd.
+Print Assumptions C04_dropped_only_if_empty_conclusion_fails_without_sym_fwd.
+Print Assumptions C04_dropped_only_if_empty_nonvacuous.
+Print Assumptions C04_dropped_only_if_empty_without_pe_contract.
+Print Assumptions C04_kept_although_empty_without_pe_contract.
